@@ -328,7 +328,8 @@ def strat_unknown_mix():
         if gss is not None:
             lists['kex'] = lists['kex'] + [gss]
         return {'kind': 'rated', 'lists': lists, 'role': role, 'opts': ['-n'] + opts}
-    return st.tuples(gens.all_clean_peer(), st.sampled_from(CATS), gens.unknown_name(16).filter(lambda s: not s.startswith('gss-')), st.one_of(st.none(), gens.gss_name()), st.sampled_from(['server', 'client']), st.sampled_from(OPTION_SETS)).map(build)
+    odd = st.sampled_from(['aes256-\x1b[2Jctr', 'x\x07y', 'del\x7f', 'caf\xc3\xa9-cipher', '\xff\xfe', 'na\xc2\xa0me', 'tab\tname', 'cr\rname', '\xe2\x80\xa8'])      # (latin-1 transport of the bytes on the wire)
+    return st.tuples(gens.all_clean_peer(), st.sampled_from(CATS), st.one_of(gens.unknown_name(16).filter(lambda s: not s.startswith('gss-')), gens.unknown_name(16).filter(lambda s: not s.startswith('gss-')), odd), st.one_of(st.none(), gens.gss_name()), st.sampled_from(['server', 'client']), st.sampled_from(OPTION_SETS)).map(build)
 
 
 def strat_empty_names():
